@@ -96,6 +96,7 @@ func NewNet(r *simkit.Run) *Net {
 		return []grpc.DialOption{
 			grpc.WithContextDialer(func(ctx context.Context, addr string) (net.Conn, error) { return n.dial(ctx, addr) }),
 			grpc.WithUnaryInterceptor(n.unary),
+			grpc.WithStreamInterceptor(n.stream),
 		}
 	}
 	return n
@@ -321,4 +322,35 @@ func (n *Net) roundTrip(req *http.Request) (*http.Response, error) {
 	resp := rec.Result()
 	resp.Request = req
 	return resp, nil
+}
+
+// stream gates the receive side of client streams whose method is gated: every
+// RecvMsg parks (phase "recv") until the root goroutine releases it; verdict
+// "drop" makes the stream fail with Unavailable at that point (stream cut).
+func (n *Net) stream(ctx context.Context, desc *grpc.StreamDesc, cc *grpc.ClientConn, method string, streamer grpc.Streamer, opts ...grpc.CallOption) (grpc.ClientStream, error) {
+	dest := cc.Target()
+	if n.isDown(dest) {
+		return nil, status.Error(codes.Unavailable, "simnet: "+dest+" unreachable")
+	}
+	cs, err := streamer(ctx, desc, cc, method, opts...)
+	if err != nil || !n.isGated(method) {
+		return cs, err
+	}
+	return &gatedStream{ClientStream: cs, n: n, dest: dest, method: method}, nil
+}
+
+type gatedStream struct {
+	grpc.ClientStream
+	n      *Net
+	dest   string
+	method string
+	count  uint64
+}
+
+func (g *gatedStream) RecvMsg(m interface{}) error {
+	g.count++
+	if v := g.n.park(g.dest, g.method, "recv", g.count); v.Kind == "drop" {
+		return status.Error(codes.Unavailable, "simnet: stream cut")
+	}
+	return g.ClientStream.RecvMsg(m)
 }
